@@ -47,8 +47,9 @@ structure RT where
 structure PinsIn where
   gen    : List Pin      -- pins added to the source state, in order
   prior  : List Pin      -- pins the target held before the round trip
-  damage : Nat           -- 0: the export stream is imported as written; 1-3: cut/garbled first;
-                         -- 4-7: reshaped only (no final newline, extra whitespace, one line, CRLF)
+  damage : Nat           -- 0: the export stream is imported as written; 1-3, 10: cut/garbled;
+                         -- 4-7: reshaped only (no final newline, extra whitespace, one line, CRLF);
+                         -- 8, 9, 11, 12: documents added that do not change what the stream says (see `harmless`)
   deriving Repr
 
 structure PinsOut where
@@ -66,9 +67,14 @@ def rtSame (src : List Pin) : Option RT → Bool
 
 def pinsWf (i : PinsIn) : Bool := i.gen.all wfPin && i.prior.all wfPin
 
-/-- the stream still is the exported sequence of JSON documents (white space between documents
-    is not part of them) -/
-def harmless (damage : Nat) : Bool := damage == 0 || decide (4 ≤ damage)
+/-- The stream still says what the exported one says: the exported sequence of JSON documents as
+    written (0), reshaped (4-7: white space between documents is not part of them), or with documents
+    added that name no other pin and are not the last word on any pin — the whole export once more (8),
+    a record without "cid" at the end (9: it names no pin), the first document repeated at the end (11),
+    a changed copy of the first document in FRONT (12: "import" of a cid that comes again later — the
+    later, exported, document is the one that counts). 1-3 and 10: cut or followed by bytes that are
+    not JSON. -/
+def harmless (damage : Nat) : Bool := damage == 0 || (decide (4 ≤ damage) && damage != 10)
 
 def pinsClauses (i : PinsIn) (o : PinsOut) : List (String × Bool) :=
   if !pinsWf i then [] else
